@@ -242,7 +242,7 @@ impl Property for C12 {
     }
 
     fn rule(&self) -> String {
-        "1-4 files assembled from line bodies (empty, ASCII, non-ASCII, embedded CR, > 8 KiB, > 64 KiB, optionally one invalid-UTF-8 line) and terminators (LF, CRLF, none at the very end); \
+        "1-4 files assembled from line bodies (empty, ASCII, non-ASCII, embedded CR, > 8 KiB, > 64 KiB, optionally one invalid-UTF-8 line; now and then a file of 1 000 - 3 000 short lines) and terminators (LF, CRLF, none at the very end); \
          statement kinds: SELECT input, COUNT(*)+ARRAY_AGG(input), a join that loads the bytes as the joined file, a selective table. Oracle: model line splitter (split at LF, one CR before it \
          tolerated either way - but the same way in the queried files and in the joined file -, unterminated last line included): the query sees the lines of file 1, then file 2, ... exactly once in order; total_lines = number of lines; a run over several \
          LF-terminated files = a run over their concatenation; after an invalid line either every later well-formed line is still processed or an error is reported. Per case, for <= 6 lines, \
@@ -310,6 +310,13 @@ impl Property for C12 {
                 file.push(LineSpec { body, term });
             }
             files.push(file);
+        }
+        if (kind == 2 || kind == 0) && t.chance(1, 12) {
+            // a file of more than a thousand (short) lines: block-wise readers and loaders
+            let n = 1025 + t.draw(2200);
+            let mut many: Vec<LineSpec> = (0..n).map(|i| LineSpec { body: Body::Text(format!("L{}", i)), term: if i % 97 == 5 { Term::CrLf } else { Term::Lf } }).collect();
+            many.extend(files[0].drain(..));
+            files[0] = many;
         }
         Case { files, kind }
     }
